@@ -489,21 +489,21 @@ theorem io_K (cfg : Cfg) {s : State} (h : K s) (a : Bool) (w : List Nat) (rs : L
 
 theorem ticks_K (cfg : Cfg) {s : State} (h : K s) : K (ticks cfg s) := by
   unfold ticks
-  have h1 : K (if cfg.timing && s.now - s.tTiming > 900 then { sendTiming cfg s with tTiming := s.now } else s) := by
+  have h1 : K (if cfg.timing && s.now - s.tTiming > cfg.pTiming then { sendTiming cfg s with tTiming := s.now } else s) := by
     split
     · unfold sendTiming
       have a1 : K ({ s with counts := [], inTraffic := true } : State) := K_same h rfl rfl
       exact K_same (K_of_R a1 (fwdTop_R cfg _ _)) rfl rfl
     · exact h
-  generalize (if cfg.timing && s.now - s.tTiming > 900 then { sendTiming cfg s with tTiming := s.now } else s) = s1 at h1
+  generalize (if cfg.timing && s.now - s.tTiming > cfg.pTiming then { sendTiming cfg s with tTiming := s.now } else s) = s1 at h1
   dsimp only
-  have h2 : K (if s1.now - s1.tTraffic > 1000 then sendTraffic cfg s1 else s1) := by
+  have h2 : K (if s1.now - s1.tTraffic > cfg.pTraffic then sendTraffic cfg s1 else s1) := by
     split
     · unfold sendTraffic
       have a1 : K ({ s1 with inTraffic := true } : State) := K_same h1 rfl rfl
       exact K_same (K_of_R a1 ((logAt_R cfg 10 _).trans (foldl_fwd_R cfg _ _))) rfl rfl
     · exact h1
-  generalize (if s1.now - s1.tTraffic > 1000 then sendTraffic cfg s1 else s1) = s2 at h2
+  generalize (if s1.now - s1.tTraffic > cfg.pTraffic then sendTraffic cfg s1 else s1) = s2 at h2
   split
   · unfold sendActive
     exact K_same (K_of_R h2 (((logAt_R cfg 10 s2).trans (infoAll_R cfg _ _)).trans (fwdTop_R cfg _ _))) rfl rfl
